@@ -13,6 +13,7 @@ import (
 	spb "github.com/openconfig/gribi/v1/proto/service"
 	"github.com/openconfig/gribigo/rib"
 
+	"verifh/internal/drive"
 	"verifh/internal/ev"
 	"verifh/internal/gen"
 	"verifh/internal/hgen"
@@ -68,14 +69,37 @@ type Trace struct {
 // Protect runs f and returns the panic value and stack if it panicked.
 func Protect(f func()) (panicked string) { return protect(f) }
 
+// protect runs f on its own goroutine under the watchdog of package drive: a panic is
+// recovered and returned with its stack; if f does not return (a call that blocks forever
+// would otherwise wedge the whole process) the text starts with "HANG " followed by the
+// blocked gribigo frames and the goroutine dump. The goroutine is then left behind.
 func protect(f func()) (panicked string) {
-	defer func() {
-		if r := recover(); r != nil {
-			panicked = fmt.Sprintf("%v\n%s", r, debug.Stack())
+	var out string
+	hg := drive.Watch("rib call", func() {
+		defer func() {
+			if r := recover(); r != nil {
+				out = fmt.Sprintf("%v\n%s", r, debug.Stack())
+			}
+		}()
+		f()
+	})
+	if hg != nil {
+		d := hg.Dump
+		if len(d) > 6000 {
+			d = d[:6000]
 		}
-	}()
-	f()
-	return ""
+		return "HANG " + hg.Blocked + "\n" + hg.Error() + "\n" + d
+	}
+	return out
+}
+
+// Sig is the signature of a finding made by Protect: P/panic:<top frame> or P/hang:<blocked frames>.
+func Sig(P, p string) string {
+	if strings.HasPrefix(p, "HANG ") {
+		b, _, _ := strings.Cut(strings.TrimPrefix(p, "HANG "), "\n")
+		return P + "/hang:" + b
+	}
+	return P + "/panic:" + TopFrame(p)
 }
 
 // TopFrame extracts the first gribigo/ygot frame of a panic stack for signatures.
@@ -144,7 +168,7 @@ func Run(h hgen.History, o Opts) (*ev.Verdict, *Trace) {
 			}
 			var ferr error
 			if p := protect(func() { ferr = r.Flush(st.Flush) }); p != "" {
-				v.Fail(P+"/panic:"+TopFrame(p), "%s panicked: %s", when, p)
+				v.Fail(Sig(P, p), "%s panicked: %s", when, p)
 				return v, tr
 			}
 			_ = ferr // the status of Flush is C08's subject
@@ -175,7 +199,7 @@ func Run(h hgen.History, o Opts) (*ev.Verdict, *Trace) {
 					oks, fails, err = r.AddEntry(st.Op.NI, op)
 				}
 			}); p != "" {
-				v.Fail(P+"/panic:"+TopFrame(p), "%s panicked: %s", when, p)
+				v.Fail(Sig(P, p), "%s panicked: %s", when, p)
 				return v, tr
 			}
 			out := model.Outcome{OKs: obs.IDs(oks), Fails: obs.IDs(fails), Err: err}
